@@ -16,7 +16,8 @@ RULE = ("(a) exhaustive in-driver enumeration: every vertex list of length 0..L 
         "structure (vertices, edge midpoints, points sharing an ordinate with a vertex, lattice points, far points); "
         "a random case is non-trivial when some query point is on a boundary or shares an ordinate with a vertex or "
         "a polygon self-intersects/has repeated vertices; distinct by case hash")
-ASSUMPTIONS = ["coordinates are dyadic rationals small enough that every product gdstk forms is exact",
+ASSUMPTIONS = ["coordinates are dyadic rationals; a fifth of the polygons sit at a far anchor (2^31 .. 2^40 eighths) where only products "
+               "of coordinate DIFFERENCES are exact - the measures are still compared with 1e-12 relative tolerance",
                "the oracle is my own exact winding number (Python ints / C++ int64)"]
 
 
@@ -78,6 +79,12 @@ def polygon(draw):
                 pts.append(list(draw(st.sampled_from(pts))))
             else:
                 pts.append([draw(c), draw(c)])
+    # a polygon far from the origin (coordinates stay exactly representable): the measures must come from coordinate
+    # differences - products of absolute coordinates exceed 2^53 here and would cancel catastrophically
+    if draw(st.integers(0, 4)) == 0:
+        anchors = [2 ** 31 + 8, -(2 ** 31 + 8), 3 * 2 ** 30 + 8, 8 * 10 ** 9 + 56, -(8 * 10 ** 9 + 24), 2 ** 40 + 8]
+        ax, ay = draw(st.sampled_from(anchors)), draw(st.sampled_from(anchors))
+        pts = [[x + ax, y + ay] for x, y in pts]
     rep = draw(st.one_of(st.none(), st.none(), repgen.repetition(allow_zero=False)))
     return {"pts": pts, "rep": rep}
 
